@@ -23,8 +23,10 @@ fn c05_shape(b: usize, l: usize, depth: u8) {
     let mut s = Searcher::new();
     let (score, mv) = s.find_best_move(&Board::root(), depth, None);
     check_result(score, mv, depth);
-    vcover!(has_moves_at(0, 0) && value_at(0, 0, depth) > 50 && value_at(0, 0, depth) < 100, "in-window value");
-    vcover!(has_moves_at(0, 0) && value_at(0, 0, depth) > 40000, "mate value");
+    // (witnesses are phrased on the reported score: it equals the oracle value by the assertions above, and every
+    // further oracle evaluation would run the engine's quiescence again)
+    vcover!(has_moves_at(0, 0) && score > 50 && score < 100, "in-window value");
+    vcover!(has_moves_at(0, 0) && score > 40000, "mate value");
     vcover!(!has_moves_at(0, 0), "root without moves");
     core::mem::forget(s);
 }
